@@ -306,7 +306,7 @@ fn run_family(seed: u64, f: u64, q_per_fam: usize) -> FamOut {
     }
     let mut names = vec![];
     gen::names_of(&base, &mut names);
-    let g = QGen { names: &names, fancy: true, regex: true, ext: true, safe_quotes: true };
+    let g = QGen { names: &names, fancy: true, regex: true, ext: true, safe_quotes: true, reenter: false };
     let mut queries: Vec<String> = vec![];
     for _ in 0..q_per_fam {
         let t = rng.weighted(&[3, 4, 3]);
